@@ -31,9 +31,14 @@ def lexer_target(data):
     with budget.monitor(budget.budget_for(len(text))):
         toks = list(Lexer(f))       # any exception is a finding
     bad = [(e.highlights[0].lineno, e.highlights[0].column) for e in f.errors if e.name == "BAD_LEXEME"]
-    res = scan.check(text, toks, bad)
+    res = scan.check(f.source, toks, bad)
+    oracle = os.environ.get("NV_FUZZ_ORACLE", "C10")
     if not res["roundtrip"]:
-        raise AssertionError("C10 round trip: " + res["why"])
+        if oracle in ("C10", "C05"):
+            raise AssertionError("C10 round trip: " + res["why"])
+    elif oracle == "C09" and (res["positions_ok"] is False or res["bad_ok"] is False):
+        if "\\\t" not in text:   # open finding: tab after a backslash inside a literal
+            raise AssertionError("C09 positions: %r" % (res["first_bad"],))
 
 
 REG = Registry()
